@@ -17,7 +17,7 @@ FUNCTIONS = {
     'C02': [(L, 'runner.handle_layer_failure'), (L, 'runner.tear_down_unneeded'), (L, 'runner.run_layer'),
             RUN_TESTS, RUNNER_LOOP, ('runner_spawn', 'runner.spawn_layer_in_subprocess'),
             # import errors are bad outcomes too: they reach the verdict through tests_from_suite / find_tests
-            ('find_c09', 'find.tests_from_suite'), ('select_c03', 'find.find_tests')],
+            ('find_c09', 'find.tests_from_suite'), ('select_c03', 'find.find_tests'), ('find_c02', 'find.Find.global_setup')],
     'C07': [('runner_spawn', 'runner.spawn_layer_in_subprocess'), ('process_c07', 'process.SubProcess.report')],
     'C04': [(L, 'runner.setup_layer'), (L, 'runner.tear_down_unneeded'), (L, 'runner.run_layer'),
             (L, 'runner.handle_layer_failure'), (RR, TR + '_restoreStdStreams'), (RR, TR + 'startTest'),
@@ -59,7 +59,8 @@ FUNCTIONS = {
             ('select_c03', 'listing.Listing.report'), ('runner_order', 'runner.order_by_bases'),
             ('runner_order', 'runner.Runner.ordered_layers'), RUN_TESTS, RUNNER_LOOP,
             ('runner_spawn', 'runner.spawn_layer_in_subprocess'), ('features_c18', 'runner.Runner.run'),
-            ('find_c14', 'find.find_test_files'), ('runner_sched', 'runner.resume_tests')],
+            ('find_c14', 'find.find_test_files'), ('runner_sched', 'runner.resume_tests'),
+            ('configure_c03', 'runner.Runner.configure')],
     'C06': [('runner_sched', 'runner.resume_tests'), ('runner_spawn', 'runner.spawn_layer_in_subprocess'),
             ('process_c07', 'process.SubProcess.report')],      # sentence 1 composes the lossless transfer (C07)
     'C14': [('find_c14', f) for f in ('find.strip_py_ext', 'find.contains_init_py', 'find.find_test_files_',
